@@ -63,6 +63,8 @@ def describe(shape, decor):
                 nm, el = ATOMNAMES[ai]
                 if decor == "rich" and ai == 1:
                     nm, el = "M1", "VS"  # a virtual site
+                if decor == "rich2" and ai == 0:
+                    nm, el = "OM", "VS"  # a virtual site whose NAME reads like an element symbol (a carrier must not re-guess it)
                 serial = None if decor == "plain" else (10 + 7 * ai if decor == "rich" else ai + 1)
                 atoms.append({"name": nm, "element": el, "serial": serial})
                 ai += 1
@@ -517,7 +519,7 @@ def check_single(tier, seed, only=None, known=None):
     chk = Check("single-transformations", "Topology.copy/__copy__/__deepcopy__/pickle/subset/join/to_dataframe/from_dataframe, HDF5 and PDB save+load, Trajectory.atom_slice/stack/slice",
                 bound=f"{len(bases)} topologies = shapes (<=3 chains x <=2 residues x <=2 atoms; {'all 42 with <=2 chains + 13 with 3 chains' if tier == 'quick' else 'all 258'}) x decorations {DECORS} "
                       f"(plain: defaults; rich: chain ids A/B/X, resSeq 5,0,5,7,0,12, serials 10+7i, segment ids, one virtual site, typed/ordered bonds along and across residues and chains; "
-                      f"rich2: chain ids X/A/C, adjacent residues with equal name and resSeq, serial=index+1) x {len(SINGLE_OPS)} transformations",
+                      f"rich2: chain ids X/A/C, adjacent residues with equal name and resSeq, serial=index+1, a virtual site named like an element) x {len(SINGLE_OPS)} transformations",
                 rule="exhaustive; observe(T(top)) compared field by field with spec_T(observe(top)); non-trivial = decorated topology",
                 stands_in_for="copy/subset/join/df/HDF5-JSON/PDB obligations of C04 (PdbStructure parsing and pandas row semantics are assumed there)", exhaustive=True)
     known = set() if known is None else known
